@@ -21,7 +21,9 @@ Open Scope Z_scope.
      it stopped;
    - once the generator has returned, the promise of its last start holds
      the returned value;
-   - process never raises;
+   - process never raises, except that it passes on an exception that left a
+     coroutine body; that coroutine is TERMINATED from then on, its promise
+     keeps None, it is released at once;
    and at the end of the trace every generator that is still alive after the
    harness dropped its references is ACTIVE, PAUSED, or a killed one whose
    next turn (next frame, or the frame in which its wait runs out) has not
@@ -58,9 +60,21 @@ Theorem C09_return_terminates_and_fills_promise :
                 In g (t_fin (sp_result t g (RReturn v))).
 Proof. exact return_terminates. Qed.
 
+(* process never fails, except that it passes on what left a coroutine body *)
 Theorem C09_process_never_fails :
-  forall sc t dt log exc, ok09 (sp_step sc t (Process dt) (ObsP log exc)) = true -> exc = OOk.
+  forall sc t dt log exc,
+    ok09 (sp_step sc t (Process dt) (ObsP log exc)) = true ->
+    exc = abort_outcome (fold_left (sp_exec sc) log (tick dt (flagwf (0 <=? dt) t))).
 Proof. exact process_never_fails. Qed.
+
+Theorem C09_raise_terminates :
+  forall t g k,
+    sp_state (sp_result t g (RRaise k)) g = 0 /\
+    t_val (sp_result t g (RRaise k)) = t_val t /\
+    In g (t_fin (sp_result t g (RRaise k))) /\
+    t_due (sp_result t g (RRaise k)) = [] /\
+    no_abort (sp_result t g (RRaise k)) = false.
+Proof. exact raise_terminates. Qed.
 Print Assumptions C09_process_never_fails.
 
 (* non-vacuity: a trace recorded from /repo (kill + start between frames and
@@ -107,6 +121,22 @@ Proof. vm_compute. reflexivity. Qed.
 Example C09_not_released_rejected :
   holds09_b (mkCase two [(Start 0, ObsR OOk); (Kill 0, ObsR OOk);
                          (Process 8, ObsP [] OOk)] [0]) = false.
+Proof. vm_compute. reflexivity. Qed.
+
+(* what the code did before the repair 5fd221a: the coroutine whose body
+   raised stayed registered (ACTIVE, not released) *)
+Definition boom : scripts := [(0, [([], RRaise 2)])].
+Example C09_raised_still_active_rejected :
+  holds09_b (mkCase boom [(Start 0, ObsR OOk); (Process 8, ObsP [(0, 0, [])] (ORaised 2));
+                          (State 0, ObsR (OState 2))] []) = false.
+Proof. vm_compute. reflexivity. Qed.
+Example C09_raised_not_released_rejected :
+  holds09_b (mkCase boom [(Start 0, ObsR OOk); (Process 8, ObsP [(0, 0, [])] (ORaised 2))] [0])
+  = false.
+Proof. vm_compute. reflexivity. Qed.
+Example C09_raised_accepted :
+  accepts (mkCase boom [(Start 0, ObsR OOk); (Process 8, ObsP [(0, 0, [])] (ORaised 2));
+                        (State 0, ObsR (OState 0)); (Process 8, ObsP [] OOk)] []) = true.
 Proof. vm_compute. reflexivity. Qed.
 
 (* former finding K9 (repaired in /repo): a coroutine kills itself and
